@@ -66,8 +66,22 @@ def _is_arity_test(t: ast.AST, p=None) -> bool:
 def _subtype_check_nodes(repo: Repo, f: FuncInfo, g: C.CFG, depth: int = 0) -> List[int]:
     """nodes that guarantee a per-argument subtype check: loop heads whose body asserts is_sub_type, or calls of a helper that does"""
     out = []
+
+    def all_subtype(test) -> bool:
+        """all(a.is_sub_type(b) for ...) without a filter (possibly under `not`)"""
+        while isinstance(test, ast.UnaryOp) and isinstance(test.op, ast.Not):
+            test = test.operand
+        return isinstance(test, ast.Call) and callee_name(test) == "all" and len(test.args) == 1 and \
+            isinstance(test.args[0], (ast.GeneratorExp, ast.ListComp)) and not any(g_.ifs for g_ in test.args[0].generators) and \
+            any(isinstance(x, ast.Call) and callee_name(x) == "is_sub_type" for x in ast.walk(test.args[0].elt))
+
     for n in g.nodes():
         st = g.stmt[n]
+        if isinstance(st, ast.Assert) and all_subtype(st.test):
+            out.append(n)
+        elif isinstance(st, ast.If) and all_subtype(st.test) and (any(isinstance(b, ast.Raise) for b in C.stmts_in(st.body)) or
+                                                                 any(isinstance(b, ast.Raise) for b in C.stmts_in(st.orelse))):
+            out.append(n)
         if isinstance(st, ast.For):
             body_ok = False
             for s in C.stmts_in(st.body):
@@ -259,8 +273,19 @@ def rule_sections(repo: Repo) -> RuleResult:
         if "call" in spec[0]:
             ok = ok and spec[-1] in calls
         # the section's content (var[1] / var[1:]) is what is handed on
-        uses = [ast.unparse(x) for s in body for x in ast.walk(s) if isinstance(x, ast.Subscript) and isinstance(x.value, ast.Name) and x.value.id == var]
-        ok = ok and any(u in (f"{var}[1]", f"{var}[1:]") for u in uses)
+        pr = L.prov(repo, f)
+        elem = {x + ("elem",) for x in pr.trace(loops[0].iter)}
+        handed = False
+        for s_ in body:
+            for x in ast.walk(s_):
+                if isinstance(x, ast.Subscript) and isinstance(x.ctx, ast.Load):
+                    try:
+                        tr = pr.trace(x)
+                    except KeyError:
+                        continue
+                    if any(pth[:-1] in elem and (pth[-1] == "item:1" or pth[-1].startswith("slice:1")) for pth in tr):
+                        handed = True
+        ok = ok and handed
         if ok:
             r.ok({"section": head, "handled_by": spec[1:]})
         else:
